@@ -309,11 +309,15 @@ class Check:
 
 
 def load_known() -> dict:
-    p = ROOT / 'known_findings.json'
-    if not p.exists():
-        return {}
-    data = json.loads(p.read_text())
-    return {(e['property'], e['key']): e for e in data.get('findings', [])}
+    res = {}
+    files = [ROOT / 'known_findings.json'] + sorted((ROOT / 'known_findings.d').glob('*.json'))
+    for p in files:
+        if not p.exists():
+            continue
+        data = json.loads(p.read_text())
+        for e in data.get('findings', []):
+            res[(e['property'], e['key'])] = e
+    return res
 
 
 def parse_args(argv=None):
